@@ -381,6 +381,60 @@ def hist_compare(batch, res, stream):
                                       'model': ans[:1500], 'real': exp[:1500]})
 
 
+def spec_compare(batch, res, stream):
+    """the specification side (`firstOnPathF`, search path walk with load-function faults) against
+    what the real loader did: per plain load, `cached` / nothing / raised / nopath / the file found
+    first (location, content, whether it parses)"""
+    lines = [GL.wire_history(cfg, ops).replace('C15 hist ', 'C15 firstspec ', 1) for cfg, ops, _, _ in batch]
+    answers = proto.run_lines(lines)
+    for (cfg, ops, strict, real), ans in zip(batch, answers):
+        res.streams[stream] = res.streams.get(stream, 0) + 1
+        try:
+            model = proto.dec(ans)
+        except Exception:  # noqa
+            model = None
+        ok = isinstance(model, list) and len(model) == len(ops)
+        nobj = 0
+        for op, a, m in zip(ops, real, model if ok else []):
+            if not ok:
+                break
+            if op[0] != 'L' or a == 'unmodelled':
+                if op[0] == 'LR' and a != 'unmodelled' and a[0][0] == 'ok':
+                    nobj = max(nobj, a[0][1][0] + 1)
+                continue
+            r0 = a[0]
+            m = [str(x) for x in m] if isinstance(m, list) else str(m)
+            if r0[0] == 'ok':
+                t = r0[1]
+                if t[0] < nobj:
+                    want = 'cached'
+                else:
+                    want = ['file', str(t[1]), str(t[2]), str(t[3]), str(t[4]), 'F']
+                    nobj = t[0] + 1
+                res.count('firstspec:' + ('cached' if want == 'cached' else 'file'))
+                if m != want:
+                    ok = False
+            else:
+                err = str(r0[1])
+                res.count('firstspec:' + err)
+                if err == 'TemplateNotFound':
+                    ok = m == 'nothing'
+                elif err == 'LoadFuncError':
+                    ok = m == 'raised'
+                elif err == 'TemplateError':
+                    ok = m == 'nopath'
+                elif err == 'TemplateSyntaxError':
+                    ok = isinstance(m, list) and m[0] == 'file' and m[5] == 'T'
+                elif err == 'CallbackError':
+                    ok = isinstance(m, list) and m[0] == 'file' and m[5] == 'F'
+                    nobj += 1
+                else:
+                    ok = False
+        if not ok:
+            res.disagreements.append({'stream': stream, 'case': {'kind': 'hist', 'cfg': cfg, 'ops': ops, 'strict': strict},
+                                      'model': ans[:1500], 'real': proto.enc([proto.Atom(a) if isinstance(a, str) else a for a in real])[:1500]})
+
+
 def hist_shard(arg):
     seed, idx, n, maxlen = arg
     rng = random.Random('%s/%s/C15-hist' % (seed, idx))
@@ -409,6 +463,7 @@ def hist_shard(arg):
         if j < 1:
             res.samples.append({'kind': 'hist', 'cfg': cfg, 'ops': ops[:8]})
     hist_compare(batch, res, 'loader-histories')
+    spec_compare(batch, res, 'first-on-path-spec')
     return res
 
 
